@@ -251,7 +251,7 @@ func c12Executor(c *mc.Ctx) {
 	if !c.Quick() {
 		depth = 5
 	}
-	b := &mc.BFS{C: c, Name: "chainmc-executor-rollback", MaxDepth: depth,
+	b := &mc.BFS{C: c, Name: "chainmc-executor-rollback", MaxDepth: depth, EveryTransition: true,
 		Init:    func() mc.Instance { return newC09Inst() },
 		Enabled: func(x mc.Instance, d int) []string { return ops },
 		Apply: func(x mc.Instance, op string, path []string) (bool, bool) {
